@@ -45,7 +45,7 @@ STRS = ["", "a", "abc", "5", "-3", "007", "QUJD", "AB", "2020-01-02", "2020-01-0
         "Zed", "None", "x_y", "xY", "id", "é", "1e3", "true"]
 DTS = ["2020-01-02T03:04:05", "2020-01-02T03:04:05+00:00", "2021-12-31T23:59:59.123456+02:00", "1999-01-01T00:00:00"]
 DATES = ["2020-01-02", "1999-12-31"]
-BYTES = [b"", b"A", b"AB", b"ABC", b"\x00\xff\x10", b"hello world"]
+BYTES = [b"", b"A", b"AB", b"ABC", b"\x00\xff\x10", b"hello world", b"\xfb\xff", b"\xff\xef\xbe"]
 PYNAMES = ["id_", "class_", "type_", "user_id", "userid", "name", "x_y", "value", "items_", "a", "b", "from_", "data", "n1"]
 WIRE = ["id", "class", "type", "userId", "userid", "UserId", "USERID", "user-id", "user_id", "name", "xY", "x_y", "X_Y",
         "from", "a", "A", "b", "items", "", " ", "$ref", "data", "value", "n1"]
@@ -381,11 +381,13 @@ def gen_conv_case(rng, malformed: bool) -> dict:
     return {"kind": "conv", "classes": classes, "plan": plan}
 
 
-def gen_ser_case(rng, cyclic: bool) -> dict:
+def gen_ser_case(rng, cyclic: bool, lists_only: bool = False) -> dict:
     n = rng.randint(1, 8)
     heap: list = []
     for i in range(n):
         r = rng.random()
+        if lists_only and r >= 0.3:
+            r = 0.4          # cycles through lists only: the one kind the visited set protects
         targets = list(range(n)) if cyclic else list(range(i))
         if r < 0.3 or (not targets and r < 0.5):
             heap.append(["none"] if rng.random() < 0.3 else ["scalar", rng.choice([["i", 3], ["s", "x"], ["b", False], ["f", 2], ["s", ""]])])
@@ -952,7 +954,7 @@ def main(chk: Check, replay: dict | None = None) -> int:
     for i in range(n):
         inputs.append(gen_conv_case(rng, malformed=(i % 3 == 2)))
     for i in range(n // 3):
-        inputs.append(gen_ser_case(rng, cyclic=(i % 4 == 3)))
+        inputs.append(gen_ser_case(rng, cyclic=(i % 4 >= 2), lists_only=(i % 4 == 2)))
     cases, skipped = [], 0
     for c in inputs:
         r = run_one(c)
